@@ -567,3 +567,5 @@ func (w *World) EmitAbs(tx *types.Transaction, views []SetView, abs map[string]A
 
 // LinearPushes is linearPushes, for the C17 driver.
 func LinearPushes(prog []byte) [][]byte { return linearPushes(prog) }
+
+func sDeserialize(b []byte) (*s.Signature, error) { return s.Deserialize(b) }
